@@ -102,19 +102,39 @@ fn build<const D: usize>(id: &str, rng: &mut Rng, out: &mut Out, periodic: bool)
             out.obs("nverts", &dt.number_of_vertices().to_string());
             if !periodic {
                 tri::observe_validators(&dt, out, true);
-                // later insertion far outside the box must be stored wrapped
-                let mut p = [0.0f64; D];
-                for a in 0..D { p[a] = dom[a] * (1.0 + (rng.range(1, 15) as f64) / 16.0 + 0.03125); }
-                p[0] -= 2.0 * dom[0];
-                let u = rng.uuid();
-                let v = Vertex::new_with_uuid(Point::new(p), u, Some(-3));
-                match catch(|| dt.insert(v).map_err(|e| tri::err_kind(&format!("{e:?}")))) {
-                    Ok(Ok(k)) => {
-                        let c = dt.tds().get_vertex_by_key(k).map(|x| *x.point().coords());
-                        out.line(&format!("late {} {}", hxs(&p), c.map_or("none".into(), |c| hxs(&c))));
+                // later insertions must be stored wrapped: far outside the box, exactly ON an upper
+                // face (x = L wraps to 0), the corner (L, .., L), multiples k*L, just below a face,
+                // -0.0, and plain in-box points; through both insertion APIs
+                for li in 0..6u64 {
+                    let mut p = [0.0f64; D];
+                    // in-box part off the 1/16 grid of the inputs and distinct per late insert
+                    for a in 0..D { p[a] = dom[a] * ((2 * rng.range(0, 15) + 1) as f64 / 32.0 + (li + 1) as f64 / 512.0); }
+                    match li {
+                        0 => { for a in 0..D { p[a] += dom[a]; } p[0] -= 2.0 * dom[0]; }
+                        1 => { let a = rng.below(D as u64) as usize; p[a] = dom[a]; }
+                        2 => { for a in 0..D { p[a] = dom[a]; } }
+                        3 => { let a = rng.below(D as u64) as usize; p[a] = dom[a] * [-1.0, 2.0, 3.0, -2.0][rng.below(4) as usize]; }
+                        4 => { let a = rng.below(D as u64) as usize; p[a] = [-0.0, -1e-20, -5e-324, -1e-12 * dom[a]][rng.below(4) as usize]; }
+                        _ => {}
                     }
-                    Ok(Err(e)) => out.line(&format!("late {} err:{e}", hxs(&p))),
-                    Err(m) => out.line(&format!("late {} panic:{m}", hxs(&p))),
+                    let u = rng.uuid();
+                    let v = Vertex::new_with_uuid(Point::new(p), u, Some(-3 - li as i32));
+                    let stats_api = li % 2 == 1;
+                    let r = catch(|| if stats_api {
+                        match dt.insert_with_statistics(v) {
+                            Ok((delaunay::core::operations::InsertionOutcome::Inserted { vertex_key, .. }, _)) => Ok(vertex_key),
+                            Ok(_) => Err("skipped".to_string()),
+                            Err(e) => Err(tri::err_kind(&format!("{e:?}"))),
+                        }
+                    } else { dt.insert(v).map_err(|e| tri::err_kind(&format!("{e:?}"))) });
+                    match r {
+                        Ok(Ok(k)) => {
+                            let c = dt.tds().get_vertex_by_key(k).map(|x| *x.point().coords());
+                            out.line(&format!("late {} {}", hxs(&p), c.map_or("none".into(), |c| hxs(&c))));
+                        }
+                        Ok(Err(e)) => out.line(&format!("late {} err:{e}", hxs(&p))),
+                        Err(m) => out.line(&format!("late {} panic:{m}", hxs(&p))),
+                    }
                 }
             } else {
                 out.obs("tds_is_valid", &match catch(|| dt.tds().is_valid()) { Ok(Ok(())) => "ok".into(), Ok(Err(e)) => format!("err {}", tri::err_kind(&format!("{e:?}"))), Err(m) => format!("panic:{m}") });
